@@ -244,6 +244,8 @@ func checkC12(p *Program, r *Result) {
 	checkChunkTimesUnused(p, r, "C12.t")
 	r.rule("C12.n", "a chunk index without message indexes (an optional part) is never dropped by the channel filter", 0)
 	checkKeepWithoutMessageIndexes(p, r, "C12.n")
+	r.rule("C12.u", "chunks with equal times load in an order that does not depend on the layout: stable sort of the chunk indexes, or a comparator with a tie-break", 0)
+	checkChunkSortDeterministic(p, r, "C12.u")
 	r.rule("C12.c", "optional summary parts are not required on the message path", 1)
 
 	g := newGoLayouts(p, pkgMcap)
